@@ -43,8 +43,12 @@ type gate struct {
 	entered chan struct{}
 	release chan struct{}
 	once    sync.Once
+	relOnce sync.Once
 	ctx     *sql.Context // context of the evaluation that entered the gate; written before entered is closed
 }
+
+// open lets the statement blocked in the gate continue (idempotent).
+func (g *gate) open() { g.relOnce.Do(func() { close(g.release) }) }
 
 // cancelled reports whether the context of the statement blocked in the gate is cancelled.
 // Only valid after <-entered.
